@@ -31,7 +31,8 @@ def run(ctx):
                [dict(R=4, B=2, C=2, Cap=2, poison=p) for p in (1, 2, 3, 4)] + [dict(R=3, B=1, C=2, Cap=1, poison=p) for p in (1, 2, 3)]):
         poison_runs(ctx, pk, 120 if ctx.thorough else 40)
     # real multiprocessing, real SIGKILL at the k-th put of worker w (trusted-base cross-check)
-    points = [(1, 1, 0), (1, 2, 1), (1, 1, 2), (2, 1, 1)] if not ctx.thorough else [
+    # (a 4th component names another signal: SIGTERM is what `kill`, systemd and batch systems send first)
+    points = [(1, 1, 0), (1, 2, 1), (1, 1, 2), (2, 1, 1), (1, 2, 1, "SIGTERM")] if not ctx.thorough else [(1, 1, 1, "SIGTERM"), (2, 1, 0, "SIGTERM"), (1, 2, 2, "SIGHUP")] + [
         (g, w, k) for g in (1, 2) for w in (1, 2) for k in (0, 1, 2) if not (g == 2 and (w == 2 or k == 2))
     ]
     real = []
